@@ -43,5 +43,8 @@ def run(ctx):
     ctx.product_run('main', 'checks.c01:run_case', main, chunksize=1)
     if second:
         ctx.product_run('second', 'checks.c01:run_case', second, chunksize=1)
+    units = pp.units_product(ctx.tier)
+    ctx.bounds['units'] = len(units)
+    ctx.product_run('units', 'checks.c01:run_case', units, chunksize=1)
     ctx.product_run('shape', 'checks.c01:run_case', shape, chunksize=1)
     ctx.product_run('default-dtscale', 'checks.c01:run_case', dflt, chunksize=1)
